@@ -14,7 +14,6 @@ EXPECT = {
     "seeded-C05-4": ("accepted-miss", "suppresses the propagation of a pending tuple cycle inside calculateEdgeWeight: value logic of the cycle bookkeeping"),
     "seeded-C05-5": ("accepted-miss", "changes where isTupleCycle starts looking in the ancestor path: value logic of the back-edge classification"),
     "seeded-C14-5": ("accepted-miss", "changes which models count as modular (any → all): a predicate over the model, no structural clause"),
-    "seeded-C03-6": ("accepted-miss", "grammar and Go automaton edited consistently; reported by C19 (other targets differ), not by C03"),
     "survey-C08-noguard-recurse": ("silent", "negative control: the removed guard is redundant under the grammar typestate"),
     "survey-C17-reversed-shares-ids": ("silent", "negative control: ids are immutable strings, sharing them is unobservable"),
     "survey-C17-upsert-plain-nonorm": ("silent", "negative control: behaviour-preserving"),
